@@ -36,7 +36,7 @@ KNOWN_ATTRS = {'__wrapped__': 'A_wrapped', '__signature__': 'A_signature',
 KNOWN_ATTR_IDS = {'__wrapped__': 1, '__signature__': 2, 'currently_computing': 3}
 KNOWN_EXC = {'AttributeError': 'X_AttributeError', 'NotImplementedError': 'X_NotImplementedError',
              'UnknownForwards': 'X_UnknownForwards', 'TypeError': 'X_TypeError',
-             'BaseException': 'X_BaseException', 'Exception': 'X_Exception'}
+             'BaseException': 'X_BaseException', 'Exception': 'X_Exception', 'KeyError': 'X_KeyError'}
 KNOWN_EXC_IDS = {'AttributeError': 1, 'NotImplementedError': 3, 'UnknownForwards': 4, 'TypeError': 5}
 KNOWN_CLASSES = {'cleanup_functools_wrapper': 'C_cleanup', '_AsForged': 'C_asforged'}
 KNOWN_METHODS = {'__init__': 'M_init', '__enter__': 'M_enter', '__exit__': 'M_exit', '__get__': 'M_get'}
@@ -173,6 +173,13 @@ class FunctionTranslator(object):
                 t = '(EIsNone %s)' % self.expr(e.left)
                 return t if isinstance(op, ast.Is) else '(ENot %s)' % t
             self.err(e, 'comparison operator')
+        if isinstance(e, ast.Subscript):
+            # vars(x)[k]: the attribute as stored in x's own __dict__
+            v = e.value
+            if (isinstance(e.ctx, ast.Load) and isinstance(v, ast.Call) and _dotted(v.func) == 'vars'
+                    and len(v.args) == 1 and not v.keywords and not isinstance(v.args[0], ast.Starred)):
+                return '(EVarsItem %s %s)' % (self.expr(v.args[0]), self.expr(e.slice))
+            self.err(e, 'subscript other than vars(x)[k]')
         if isinstance(e, ast.Call):
             return self.call(e)
         self.err(e, 'expression')
